@@ -30,7 +30,7 @@ func checkC03(p *Prog, r *Report) {
 	checkSignBytesBindMessage(p, r, "C03", "x/did")
 	// stored documents are what handlers wrote: code that rewrites them in a loop (listing, export, migration) decodes each entry
 	// into a fresh variable — a reused target merges one DID's keys into the next one's document
-	r.Count("in-loop-decode-targets(x/did)", checkLoopFreshDecode(p, r, "C03", func(fn *ssa.Function) bool { return InPkgs(fn, "x/did/keeper", "x/did/types") }))
+	r.Count("in-loop-decode-targets(x/did)", checkLoopFreshDecode(p, r, "C03", func(fn *ssa.Function) bool { return InPkgs(fn, "x/did") && !InPkgs(fn, "x/did/client") }))
 	checkInitGenesisCallers(p, r, "C03", "x/did")
 	wireKeyOwnership(p, r, BuildWire(p), "C03", "did", []string{"x/did/keeper.NewKeeper"}, "DID documents")
 }
